@@ -1458,9 +1458,9 @@ func checkPairedLinks(c *core.Ctx, r *core.Rule, pkg string) {
 			continue
 		}
 		type linkStore struct {
-			st         *ssa.Store
-			base, val  ssa.Value
-			field      string
+			st        *ssa.Store
+			base, val ssa.Value
+			field     string
 		}
 		var stores []linkStore
 		core.Instrs(fn, func(ins ssa.Instruction) {
